@@ -11,7 +11,7 @@ COMMON_TRUST = [
 DATA_RULE = "sessions of 30-200 redis commands (46 write, 39 read commands of the KV/hash/list/set/zset families incl. TTL commands) on a real KVNode (real leader-side handlers, real proposal path, real kvStoreSM/applyEntries, mem-btree and pebble engines, both expiry policies) over small adversarial pools (keys that are prefixes of each other / contain ':' / 0x00 / 0xff / empty key part, empty and binary members, negative and out-of-range indexes, inverted ranges), 15% mutated argument vectors (dropped/duplicated/extended args, huge/negative/non-numeric numbers, over-long keys and sub-keys, malformed keys), random grouping into apply events (sizes 1-36), log timestamps placed before/at/after expiry seconds; 25% of the sessions may repeat or go back in log time, 25% may put apply-failing batchable commands into multi-entry events; shadows: one-entry-per-event, other engine, isReplaying, packed entries; non-trivial = the real code answered without an error class; distinct = distinct op lines"
 DATA_TRUST = ["protocol `data` is oracle-only at this stage: no Lean driver speaks it; the theorems are about abstract models whose codec / batching hypotheses are tied to the code by C12's theorems and by regenerated facts, not by a differential run", 'server layer (namespace lookup, router order, reply type switch, merge dispatch) is re-stated in the harness (marked SERVER-EMU)', 'read paths use the wall clock: expiry instants are kept decades away from the real clock; boundary behaviour is exercised on write paths only']
 
-RAFT_RULE = '256 (quick) / 4800 (thorough) sessions of <= 300 schedule events on 1-5 REAL raft.Node instances (MemoryStorage, one goroutine, StepNode/Advance) with and without a learner, all four preVote x checkQuorum settings: ticks, campaigns, proposals, deliveries picked by position from the pool of every message ever sent (duplication, reordering, loss), partitions, crash + RestartNode from the storage object between events and inside a Ready (nothing persisted / everything persisted and nothing sent / leader Ready sent before the persist / entries without hard state), leader transfer, compaction so that lagging followers get MsgSnap; every event is mapped to abstract actions (event table of DESIGN.md section 7 C02) and checked by the Lean certificate, then the abstract nodes (term, role, commit, term of every log index) are compared with the real ones; non-trivial = an event whose certificate line was checked; distinct = distinct op lines'
+RAFT_RULE = '256 (quick) / 4800 (thorough) sessions of <= 300 schedule events on 1-5 REAL raft.Node instances (MemoryStorage, one goroutine, StepNode/Advance) with and without a learner, all four preVote x checkQuorum settings: ticks, campaigns, proposals, deliveries picked by position from the pool of every message ever sent (duplication, reordering, loss), partitions, crash + RestartNode from the storage object between events and inside a Ready (nothing persisted / everything persisted and nothing sent / leader Ready sent before the persist / entries without hard state), leader transfer, compaction so that lagging followers get MsgSnap; every event is mapped to abstract actions (event table of DESIGN.md section 7 C02) and checked by the Lean certificate, then the abstract nodes (term, role, commit, term of every log index, vote of the current term, durable term / vote / commit as read back from the storage object) are compared with the real ones; directed vote schedules (a voter enters a term without voting, optionally becomes pre-candidate, gets the MsgVote of two candidates of that term, optionally restarts in between) are generated with targeted deliveries and replayed from corpus/C01; non-trivial = an event whose certificate line was checked; distinct = distinct op lines'
 RAFT_TRUST = ['the event table (harness/cmd/zvh/proto_raft.go) that maps events of the real nodes to abstract actions is trusted to name the right action; a wrong table shows up as a rejected certificate on the unchanged tree, not as a false acceptance of a different protocol step only as far as the state comparison after every event sees it', "membership changes, ReadIndex, RocksStorage and node/raft.go's goroutines are outside this protocol", 'single-voter groups: the certificate places the persist before the node acts on its own ack (what an application that persists before applying does; node/raft.go does not: known finding F1 under C06)']
 RAFT_PARTIAL = ['global theorems are for FIXED membership; dynamic membership (add / remove / promote, learners promoted) is exercised by no theorem (DESIGN.md section 7 C01 R)', 'the universal forward simulation from an executable model of raft.go to the abstract system is replaced by the run-time refinement certificate (per-run, not for all runs)']
 
@@ -58,12 +58,12 @@ CHECKS = {
     'C01': dict(
         gens=['Raft'],
         props='ZanVerif.Props.C01',
-        protos=[dict(name='raft', mode='cert', quick_seeds=2, thorough_seeds=6, classes='(two-leaders-one-term|learner-leader|panic)')],
+        protos=[dict(name='raft', mode='cert', quick_seeds=2, thorough_seeds=6, classes='(two-leaders-one-term|learner-leader|vote-not-durable|two-votes-one-term|panic)')],
         rule=RAFT_RULE,
         trusted=RAFT_TRUST,
         partial=RAFT_PARTIAL,
         assumptions=['fixed voter list'],
-        level_text='Theorems: Election Safety of the abstract raft with crashes for EVERY schedule and ANY fixed voter list (two elected nodes of one term are equal; two leaders in one term are equal), a second message-level proof, quorum overlap over the REGENERATED quorum size for every group size, and two properties of the REGENERATED canVote disjunction (no second vote within a term, pre-votes only for strictly higher terms). Real runs are tied to the abstract system by the run-time refinement certificate (executable step checker proved sound in C02) on every event of real raft.Node runs, plus an implementation-level oracle (two leaders in one term, learner as leader).',
+        level_text='Theorems: Election Safety of the abstract raft with crashes for EVERY schedule and ANY fixed voter list (two elected nodes of one term are equal; two leaders in one term are equal), a second message-level proof, quorum overlap over the REGENERATED quorum size for every group size, and two properties of the REGENERATED canVote disjunction (no second vote within a term, pre-votes only for strictly higher terms). Real runs are tied to the abstract system by the run-time refinement certificate (executable step checker proved sound in C02) on every event of real raft.Node runs, plus an implementation-level oracle (two leaders in one term, learner as leader, a granted vote released while the stored HardState does not hold it, two votes of one node in one term across restarts).',
         level_note='fixed membership only; learners are nodes outside the voter list',
         technique='Lean 4 proof (inductive invariants, any schedule) + per-run refinement certificate over real raft.Node runs + regenerated decision expressions',
     ),
